@@ -24,6 +24,8 @@ pub assume_specification [std::time::Instant::now] () -> std::time::Instant;
 pub assume_specification [std::time::Instant::elapsed] (_0: &std::time::Instant) -> std::time::Duration;
 pub assume_specification [std::time::Duration::as_secs_f64] (_0: &std::time::Duration) -> f64;
 
+// a Vec of non-zero-sized elements holds at most isize::MAX elements (std allocation invariant; ASSUMED)
+pub axiom fn axiom_vec_len_bound<T>(v: &Vec<T>) ensures v@.len() <= isize::MAX as nat;
 pub assume_specification<T> [<[T]>::reverse] (s: &mut [T])
     ensures final(s)@ == old(s)@.reverse();
 
